@@ -17,6 +17,7 @@ RULE = (
     "Generated: Hypothesis histories (<= 7 nodes, <= 30 calls) over 13 class mixes (incl. links whose targets are nodes of the same universe) with random fault plans. Non-trivial = the call "
     "changed at least one link, or raised after at least one hook had run. Enumerated cases distinct by construction; histories hashed."
     ' Also (rounds 8-9): hooks that evict/re-file nodes or re-home the receiving node, hooks that read the whole forest, vetoes as AssertionError/TreeError/KeyError subclasses.'
+    " Also: read-free histories over mixed NodeMixin/LightNodeMixin universes; hooks editing the caller's own list, returning False, raising StopIteration-style vetoes."
 )
 ASSUMPTIONS = [
     "the invariant is evaluated through the public .parent/.children of every object reachable from the universe",
